@@ -28,7 +28,8 @@ pub fn menu_case(l: L) -> Vec<(String, usize)> {
 /// ratings far above 2^31 and below 2^63 (`menu_beyond` mixes ordinary ratings with the upper half of the range)
 pub fn menu_huge(l: L) -> Vec<(String, usize)> {
     let s = sym(l);
-    vec![(s.c.to_string(), (1 << 31) + 1), (format!("{0}{0}", s.v), (1 << 31) + 2), (format!("{} {}", s.v, s.c), 1 << 40), (format!("{0}{1}{0} {1}", s.v, s.c), 1 << 62)]
+    // the first two differ in the lowest bit only (2k + 1 against 2k), and the higher one has the later title
+    vec![(s.c.to_string(), (1 << 31) + 3), (format!("{0}{0}", s.v), (1 << 31) + 2), (format!("{} {}", s.v, s.c), 1 << 40), (format!("{0}{1}{0} {1}", s.v, s.c), 1 << 62)]
 }
 
 /// ordinary ratings next to ratings in the upper half of the usize range (a rating is a `usize`; the statement
@@ -77,7 +78,7 @@ impl C12 {
             sets.push((l, "stores<=5 over 4 (title,rating) pairs with duplicates".to_string(), menu4(l), tier.pick(5, 7), false));
             sets.push((l, "stores<=3 over 10 pairs (raw vs normalised order)".to_string(), menu10(l), tier.pick(3, 4), false));
             sets.push((l, "stores<=4 over 4 titles, pairwise distinct ratings".to_string(), menu4(l), tier.pick(4, 5), true));
-            sets.push((l, "stores<=4 over 4 pairs with ratings 2^31+1 .. 2^62".to_string(), menu_huge(l), 4, false));
+            sets.push((l, "stores<=4 over 4 pairs with ratings 2^31+2, 2^31+3 (lowest bit only) .. 2^62".to_string(), menu_huge(l), 4, false));
             if matches!(l, L::None | L::En | L::Ru) || tier == Tier::Thorough {
                 sets.push((l, "stores<=4 over 6 pairs: ratings 50 / 200 next to 2^63-1, 2^63, 2^63+100 and usize::MAX".to_string(), menu_beyond(l), 4, false));
             }
